@@ -1,13 +1,12 @@
 """C14 -- bcrypt (eksblowfish) key-setup primitives (clause level).
 
 Decided structurally on the monomorphic MIR (feature `bcrypt`):
- P  `bc_init_state`, `bc_expand_key`, `bc_encrypt` are *pure delegations*: exactly one call, to `init_state` /
-    `expand_key` / `encrypt`, passing their own parameters through unchanged and in order and returning its result;
-    and the callee instance is the very instance that `KeyInit::new_from_slice` (init_state, expand_key) and
-    `BlockCipherEncBackend::encrypt_block` (encrypt) of the same type use.  Hence "plain expansion equals ordinary
-    Blowfish keying" and "the raw encrypt applies the current state's Blowfish permutation".
- W  `salted_expand_key` calls, inside /repo, only `next_u32_wrap` and `encrypt` (the same instances as above), and all
-    its stores go to `self`.
+ P  `bc_encrypt(lr)` is the current state's Blowfish permutation applied to lr with the state left unchanged, and
+    `bc_init_state()` returns the initial constants of `init_state()` -- decided on terms / values
+    (c14_terms.delegation_by_terms); `bc_expand_key` is covered by rule X.  When the three bodies are one-line delegations
+    (as they are today) that is recorded too, but the shape is not required.
+ W  `salted_expand_key` reaches, inside /repo and possibly through helper functions, only blowfish code: `next_u32_wrap`
+    and the very `encrypt` instance the ordinary API uses, and none of the other key-setup routines.
  X  (c14_terms.py, engine L3) for a symbolic state, key and salt, `salted_expand_key` leaves exactly the state of the
     reference ExpandKey(state, salt, key) -- key and salt cycled, salt words XORed into the running block before each
     of the 9 + 512 chained encryptions, entries written in order -- with the state's Blowfish permutation as an
@@ -108,7 +107,9 @@ def run(chk, facts_by_config):
                         if not ok and m.ty(f['mir']['locals'][0]).get('size') != 0:
                             why = 'it does not return the result of the call'
             if why:
-                chk.violation('P-pure-delegation', key, 'Blowfish::%s (%s) is not a pure delegation to `%s`: %s' % (bc, fn_loc(f), target, why))
+                # not in the one-call shape: decided semantically instead (c14_terms: bc_expand_key by rule X, bc_encrypt and
+                # bc_init_state by delegation_by_terms), so this is information, not a verdict
+                chk.extra.setdefault('not_a_one_line_delegation', []).append('%s: %s' % (bc, why))
             else:
                 chk.ok('P-pure-delegation', key, dict(fn=bc, delegates_to=target, same_instance_as='KeyInit / encrypt_block'))
         # ---- W
@@ -119,17 +120,24 @@ def run(chk, facts_by_config):
         else:
             f = fs[0]
             n += 1
+            # transitively (helper functions extracted from the body are fine): inside /repo it reaches only blowfish code,
+            # among it `next_u32_wrap` and the very `encrypt` instance the ordinary API uses -- and no other key-setup routine
             names = set()
             bad = []
-            for t in repo_calls(m, f):
-                nm = t['f'].get('name')
+            for i in m.reachable(f['id']):
+                g = m.fn(i)
+                if i == f['id'] or g['crate'] not in REPO_CRATES:
+                    continue
+                nm = g.get('name')
                 names.add(nm)
-                if nm not in ('next_u32_wrap', 'encrypt'):
-                    bad.append(nm)
-                elif nm == 'encrypt' and t['f'].get('inst') not in used.get('encrypt', set()):
+                if g['crate'] != 'blowfish':
+                    bad.append('%s (crate %s)' % (nm, g['crate']))
+                elif nm == 'encrypt' and 'impl_trait' not in g and i not in used.get('encrypt', set()):
                     bad.append('encrypt (another instance)')
+                elif nm in ('expand_key', 'init_state', 'decrypt'):
+                    bad.append(nm)
             if bad or not {'next_u32_wrap', 'encrypt'} <= names:
-                chk.violation('W-salted-callees', key, 'salted_expand_key calls %s inside /repo (expected exactly next_u32_wrap and encrypt)' % sorted(names))
+                chk.violation('W-salted-callees', key, 'salted_expand_key reaches %s inside /repo (expected next_u32_wrap and the ordinary encrypt, possibly through helpers; offending: %s)' % (sorted(names), bad))
             else:
                 chk.ok('W-salted-callees', key, dict(fn='salted_expand_key', repo_callees=sorted(names)))
         chk.floor('instances', n, 'n.' + cfgname)
